@@ -18,6 +18,7 @@ from common import *
 
 DIGEST_MOD = 2305843009213693951
 RESET_TREE = False   # set from the probes: does remove_all delete the tree?
+DCRIT_BOUNDED = False  # set from the probes: does the MERCURIUS dcrit shift stay inside its allocation?
 PROGRESS = None      # file the child appends its current history to (read by the parent after a crash/hang)
 
 
@@ -65,9 +66,23 @@ class Ref:
         self.box_cfg = cfg["box"]
         self.tree_root = False
         self.forced = cfg["integrator"] in ("mercurius", "trace")
+        self.mercurius = cfg["integrator"] == "mercurius"
+        self.dc = []           # critical radii of the first len(dc) particles (MERCURIUS): they travel with their particles
 
     def snapshot(self):
         return (len(self.ps), self.active, self.nvar, self.tree_root, [tuple(p) for p in self.ps])
+
+    def tree_update(self):
+        """second phase of removals in tree mode: the flagged particles are gone (order: up to the walk)"""
+        self.ps = [p for p in self.ps if not p[2]]
+        self.tree_root = True
+        if self.active > len(self.ps):
+            self.active = len(self.ps)
+        return "done"
+
+    def integrator_step(self, dcrit):
+        self.dc = list(dcrit[:len(self.ps)])
+        return "done"
 
     def add(self, ident, h, geo):
         if geo == 1:
@@ -82,12 +97,21 @@ class Ref:
         return "ok"
 
     def remove(self, idx, ks):
+        self.freed = []
+        out = self.remove0(idx, ks)
+        if out in ("removed", "lastRemoved") and 0 <= idx < len(self._before):
+            self.freed = [self._before[idx][0]]      # exactly the removed particle, exactly when it is removed
+        return out
+
+    def remove0(self, idx, ks):
+        self._before = [list(p) for p in self.ps]
         ks = ks or self.forced
         n = len(self.ps)
         if idx < 0 or idx >= n:
             return "errRange"
         if n == 1:
             self.ps = []
+            self.dc = []
             if self.active > 0:
                 self.active = 0
             self.tree_root = False
@@ -98,6 +122,8 @@ class Ref:
             if self.tree_root:
                 return "errTreeSorted"
             del self.ps[idx]
+            if idx < len(self.dc):
+                del self.dc[idx]
             if idx < self.active:
                 self.active -= 1
             return "removed"
@@ -105,6 +131,7 @@ class Ref:
             self.ps[idx][2] = 1
             return "removed"
         last = self.ps.pop()
+        self.dc = self.dc[:len(self.ps)]           # (unsorted removal never happens under MERCURIUS)
         if idx < len(self.ps):
             self.ps[idx] = last
         if self.active > len(self.ps):
@@ -116,6 +143,7 @@ class Ref:
 
     def remove_all(self):
         self.ps = []
+        self.dc = []
         self.active = -1
         self.nvar = 0
         self.tree_root = False
@@ -156,6 +184,12 @@ class CSim:
             sim.integrator = cfg["integrator"]
         self.drain(sim)
         self.sim = sim
+        # the hook REBOUNDx uses to release a particle's additional parameters: which particles is it called for?
+        self.freed = []
+        def _free_ap(pp, _log=self.freed):
+            m = pp.contents.m
+            _log.append(int(m) if m == m and abs(m) < 1e15 else -1)
+        sim.free_particle_ap = _free_ap
         c = self.clib
         c.reb_simulation_remove_particle.restype = ctypes.c_int
         c.reb_simulation_remove_particle_by_hash.restype = ctypes.c_int
@@ -179,7 +213,7 @@ class CSim:
     def state(self):
         s = self.sim
         n, nalloc = s.N, s.N_allocated
-        ps, tail = [], 0
+        ps, tail, stale = [], 0, []
         if nalloc and self.base():
             buf = ctypes.string_at(self.base(), nalloc * self.sz)
             for i in range(nalloc):
@@ -193,14 +227,24 @@ class CSim:
                     ps.append((ident, h, fl))
                 else:
                     tail = (tail + (ident * 1000003 + h * 7 + fl + 1) * (i + 1)) % DIGEST_MOD
+                    if len(stale) < 8:
+                        stale.append((ident, h, fl))
         tbl = []
         nl = s.N_lookup
         if nl > 0 and s._particle_lookup_table:
             for i in range(nl):
                 e = s._particle_lookup_table[i]
                 tbl.append((e.hash, e.index))
+        dcrit, rc = [], "00"
+        if self.cfg["integrator"] == "mercurius":
+            rim = s.ri_mercurius
+            nd = rim._N_allocated_dcrit
+            if nd > 0 and rim._dcrit:
+                raw = ctypes.string_at(ctypes.cast(rim._dcrit, ctypes.c_void_p).value, 8 * nd)
+                dcrit = list(struct.unpack("<%dQ" % nd, raw))
+            rc = "%d%d" % (1 if rim.recalculate_r_crit_this_timestep else 0, 1 if rim.recalculate_coordinates_this_timestep else 0)
         return dict(N=n, nact=s.N_active, nalloc=nalloc, nvar=s.N_var, troot=1 if s._tree_root else 0,
-                    ps=ps, tbl=tbl, tail=tail)
+                    ps=ps, tbl=tbl, tail=tail, dcrit=dcrit, rc=rc, stale=stale)
 
     def mk(self, ident, h, geo):
         p = self.P()
@@ -247,6 +291,14 @@ class CSim:
             return "done", []
         elif k == "rmall":
             c.reb_simulation_remove_all_particles(ctypes.byref(s))
+        elif k == "addvar":
+            c.reb_simulation_add_variation_1st_order.restype = ctypes.c_int
+            c.reb_simulation_add_variation_1st_order(ctypes.byref(s), ctypes.c_int(-1))
+        elif k == "tupd":
+            c.reb_simulation_update_tree(ctypes.byref(s))
+        elif k == "istep":
+            s.dt = 1e-6
+            c.reb_simulation_step(ctypes.byref(s))
         msgs = self.drain()
         kinds = [msg_kind(m) for m in msgs]
         if k == "add":
@@ -284,6 +336,14 @@ class PySim(CSim):
 
     def apply(self, op):
         import warnings
+        if op[0] in ("tupd", "istep"):
+            return CSim.apply(self, op)          # no container-level API for these
+        if op[0] == "addvar":
+            import warnings as _w
+            with _w.catch_warnings():
+                _w.simplefilter("ignore")
+                self.sim.add_variation()
+            return "done", self.drain()
         s = self.sim
         k = op[0]
         out = None
@@ -344,8 +404,9 @@ class PySim(CSim):
 def fmt_state(out, st):
     ps = ",".join("%d.%d.%d" % p for p in st["ps"]) or "-"
     tb = ",".join("%d.%d" % e for e in st["tbl"]) or "-"
-    return "%s %d %d %d %d %d ps=%s tbl=%s tail=%d" % (out, st["N"], st["nact"], st["nalloc"], st["nvar"],
-                                                      st["troot"], ps, tb, st["tail"])
+    dc = ",".join(str(x) for x in st["dcrit"]) or "-"
+    return "%s %d %d %d %d %d ps=%s tbl=%s tail=%d dcrit=%s rc=%s" % (out, st["N"], st["nact"], st["nalloc"], st["nvar"],
+                                                                     st["troot"], ps, tb, st["tail"], dc, st["rc"])
 
 
 def model_line(op, st_after):
@@ -367,6 +428,10 @@ def model_line(op, st_after):
         return "setnvar %d" % op[1]
     if k == "rmall":
         return "rmall"
+    if k == "tupd":
+        return "tupd " + (",".join(str(q) for q in op[1]) or "-")
+    if k == "istep":
+        return "istep " + (",".join(str(x) for x in st_after["dcrit"]) or "-")
     raise ValueError(op)
 
 
@@ -444,6 +509,24 @@ def probe_variant(rebound, c):
     s = CSim(rebound, dict(base, box=True, tree="collision")); s.apply(("add", 1, 11, 0)); s.apply(("add", 2, 12, 0))
     s.apply(("rmall",)); t2 = s.state()["troot"]
     res["resetTree"] = (t1 == 0 and t2 == 0)
+    # F4g (second half): MERCURIUS, dcrit allocated by a step, a removal that is refused (N_var set): dcrit untouched?
+    s = CSim(rebound, dict(base, integrator="mercurius"))
+    for i in (1, 2, 3):
+        s.apply(("add", i, 10 + i, 0))
+    s.apply(("istep",))
+    d0 = s.state()["dcrit"]
+    s.apply(("setnvar", 1))
+    out, _ = s.apply(("rm", 0, 1)); d1 = s.state()["dcrit"]
+    s.apply(("setnvar", 0))
+    res["dcritWithParticles"] = (out == "errMegno" and d1 == d0)
+    res["F4g_refused"] = dict(out=out, dcrit_before=d0, dcrit_after=d1)
+    # F4h: tree, N_active == N == 3, unsorted removal (flag), tree update: N_active <= N afterwards?
+    s = CSim(rebound, dict(base, box=True, tree="collision"))
+    for i in (1, 2, 3):
+        s.apply(("add", i, 10 + i, 0))
+    s.apply(("setactive", 3)); s.apply(("rm", 0, 0)); s.apply(("tupd", None)); st = s.state()
+    res["evictClamp"] = (st["nact"] <= st["N"])
+    res["F4h"] = dict(N=st["N"], N_active=st["nact"], ids=[p[0] for p in st["ps"]])
     res["F18"] = dict(tree_root_after_last_removal=t1, tree_root_after_remove_all=t2)
     return res
 
@@ -533,6 +616,25 @@ class Gen:
         return r.choice([0, 1, 12345, 0xFFFFFFFF, r.randint(0, 0xFFFFFFFF)] + self.pool[:2])
 
     def next_op(self, st):
+        op = self.next_op0(st)
+        merc = self.cfg["integrator"] == "mercurius"
+        can_step = merc and self.cfg["tree"] == "none" and st["N"] >= 2 and st["nvar"] == 0 and st["nact"] != 0 \
+            and not getattr(self, "had_var", False)
+        if merc and op[0] in ("rm", "rmh") and 0 < len(st["dcrit"]) < st["N"] and not DCRIT_BOUNDED:
+            # F4g: the dcrit shift loop would run past the allocation (heap overflow in this process): never executed here,
+            # the witness runs in the harness under valgrind/ASan
+            return ("istep",) if can_step else self.add_op(st)
+        if can_step and self.rng.chance(0.08):
+            return ("istep",)
+        if self.cfg["tree"] == "none" and st["nvar"] == 0 and 1 <= st["N"] <= 40 and self.rng.chance(0.03):
+            self.had_var = True                  # (MERCURIUS refuses to step once a variational configuration exists)
+            return ("addvar",)
+        if self.cfg["tree"] != "none" and self.cfg["box"] and st["troot"] and self.rng.chance(0.07) \
+                and sum(1 for p in st["ps"] if p[2]) <= 6:
+            return ("tupd", None)
+        return op
+
+    def next_op0(self, st):
         r, n = self.rng, st["N"]
         bad = self.cfg["malformed"] and r.chance(0.3)
         x = r.uniform()
@@ -566,18 +668,42 @@ class Gen:
         return self.add_op(st)
 
 
+def infer_visit(before, after):
+    """the order in which the tree walk evicted the flagged particles, as array positions at the time of each
+    eviction (swap-with-last), reconstructed from the particle array before and after the update"""
+    import itertools
+    flagged = [p for p in before if p[2]]
+    if len(flagged) > 7:
+        return None
+    for order in itertools.permutations(flagged):
+        cur, visit, n = list(before), [], len(before)
+        for p in order:
+            q = cur.index(p, 0, n) if p in cur[:n] else -1
+            if q < 0:
+                break
+            visit.append(q)
+            n -= 1
+            cur[q] = cur[n]                       # the slot n keeps its content (it is stale from now on)
+        if cur == list(after):
+            return visit
+    return None
+
+
 # ----------------------------------------------------------------------------- one history on the real code + oracle
 def run_history(c, rebound, cfg, nops, python_api, stats, lines, expect, meta, hid, fixed_ops=None):
     rng = c.rng.fork()
     sim = (PySim if python_api else CSim)(rebound, cfg)
     ref = Ref(cfg)
     gen = Gen(rng, cfg, names=(sorted(sim.names) if python_api else None))
-    lines.append("new %d %d %d" % (cfg["tree"] != "none", cfg["box"], cfg["integrator"] in ("mercurius", "trace")))
+    lines.append("new %d %d %d %d" % (cfg["tree"] != "none", cfg["box"], cfg["integrator"] in ("mercurius", "trace"),
+                                      cfg["integrator"] == "mercurius"))
     st = sim.state()
     st["forced"] = ref.forced
     expect.append(fmt_state("done", st))
     meta.append((hid, -1, ("new",), cfg))
     history = []
+    python_api_skip_cb = False
+    sim.freed[:] = []
     progress({"history": hid, "python_api": python_api, "cfg": cfg})
     ops_planned = [None] * cfg["bulk"] + [None] * nops
     for step_i in range(len(ops_planned)):
@@ -594,7 +720,20 @@ def run_history(c, rebound, cfg, nops, python_api, stats, lines, expect, meta, h
         out, msgs = sim.apply(op)
         st = sim.state()
         st["forced"] = ref.forced
-        lines.append(model_line(op, st))
+        if op[0] == "tupd":
+            visit = infer_visit(before["ps"], st["ps"] + st["stale"][:before["N"] - st["N"]])
+            if visit is None:
+                stats["tupd_unexplained"] += 1
+                visit = []
+            op = ("tupd", visit)
+            history[-1] = op
+        if op[0] == "addvar":
+            nreal = before["N"] - before["nvar"]
+            for _ in range(nreal):
+                lines.append("add 0 0 0"); expect.append("*"); meta.append((hid, step_i, op, None))
+            lines.append("setnvar %d" % (before["nvar"] + nreal))
+        else:
+            lines.append(model_line(op, st))
         expect.append(fmt_state(out, st))
         meta.append((hid, step_i, op, None))
         stats["ops"][op[0]] = stats["ops"].get(op[0], 0) + 1
@@ -608,6 +747,8 @@ def run_history(c, rebound, cfg, nops, python_api, stats, lines, expect, meta, h
         # ---------------- search: documented behaviour on a plain list
         want = None
         k = op[0]
+        ref.freed = []
+        freed_now, sim.freed[:] = list(sim.freed), []
         if k == "add":
             want = ref.add(op[1], op[2], op[3])
         elif k == "rm":
@@ -624,8 +765,11 @@ def run_history(c, rebound, cfg, nops, python_api, stats, lines, expect, meta, h
                     r2 = Ref.__new__(Ref); r2.__dict__ = json.loads(json.dumps(ref.__dict__))
                     r2.remove(i, op[2])
                     if [tuple(p) for p in r2.ps] == st["ps"]:
-                        pick = i
-                        break
+                        if r2.active == st["nact"] and (not freed_now or freed_now == [ref.ps[i][0]]):
+                            pick = i              # identical particles (e.g. variational zero particles) can differ in being active
+                            break
+                        if pick == cands[0]:
+                            pick = i
                 if len(cands) > 1:
                     stats["dup_removals"] += 1
                 want = ref.remove(pick, op[2])
@@ -649,20 +793,49 @@ def run_history(c, rebound, cfg, nops, python_api, stats, lines, expect, meta, h
             want = "done"
         elif k == "rmall":
             want = ref.remove_all()
+        elif k == "tupd":
+            want = ref.tree_update()
+            if sorted(tuple(p) for p in ref.ps) == sorted(st["ps"]):
+                ref.ps = [list(p) for p in st["ps"]]       # the order is the tree walk's business
+        elif k == "istep":
+            want = ref.integrator_step(st["dcrit"])
+        elif k == "addvar":
+            # reb_simulation_add_variation_1st_order(r, -1): one zero particle per real particle, all counted in N_var
+            nreal = len(ref.ps) - ref.nvar
+            ref.ps += [[0, 0, 0] for _ in range(nreal)]
+            ref.nvar += nreal
+            want = "done"
         got_snap = (st["N"], st["nact"], st["nvar"], bool(st["troot"]), st["ps"])
         ok = (want == out and ref.snapshot() == got_snap)
+        if ok and k in ("rm", "rmh") and sorted(freed_now) != sorted(getattr(ref, "freed", [])) and not python_api_skip_cb:
+            ok = False
+            want = "%s with free_particle_ap called for %s (was called for %s)" % (want, getattr(ref, "freed", []), freed_now)
+        elif ok and k not in ("rm", "rmh") and freed_now:
+            ok = False
+            want = "%s without any free_particle_ap call (was called for %s)" % (want, freed_now)
+        dc_ok = (not ref.mercurius) or st["dcrit"][:len(ref.dc)] == ref.dc
+        sig = None
+        if ok and not dc_ok:
+            ok = False
+            # signature of F4g (second half): a refused removal, everything as before except dcrit, shifted at the index
+            if k in ("rm", "rmh") and out in ("errMegno", "errTreeSorted") and before["dcrit"]:
+                sig = "F4g:refused-removal-under-mercurius-shifts-dcrit"
+        if not ok and k == "tupd" and want == out and st["nact"] == before["nact"] and st["nact"] > st["N"] \
+                and (st["N"], st["nvar"], bool(st["troot"]), st["ps"]) == (len(ref.ps), ref.nvar, ref.tree_root, [tuple(p) for p in ref.ps]):
+            sig = "F4h:tree-update-eviction-leaves-N_active-above-N"
         inv = lambda q: q["N"] <= q["nalloc"] and (q["nact"] == -1 or 0 <= q["nact"] <= q["N"])
         inv_ok = inv(st) or not inv(before)      # an operation must not *break* the invariants
         if not ok or not inv_ok:
             what = "%s: %s with N=%d N_active=%d tree_root=%d: implementation answered %s and holds N=%d N_active=%d ids=%s; documented behaviour: %s N=%d N_active=%d ids=%s" % (
                 "python API" if python_api else "C API", op, before["N"], before["nact"], before["troot"], out, st["N"], st["nact"],
                 [p[0] for p in st["ps"]][:8], want, len(ref.ps), ref.active, [p[0] for p in ref.ps][:8])
-            key = shape or ("C14:%s:%s-vs-%s" % (k, out.split(":")[0], str(want).split(":")[0]))
+            key = sig or shape or ("C14:%s:%s-vs-%s%s" % (k, out.split(":")[0], str(want).split(":")[0], "" if dc_ok else ":dcrit"))
             stats["deviations"][key] = stats["deviations"].get(key, 0) + 1
             c.violation(key, what, dict(cfg=cfg, python_api=python_api, history=history, seed=c.seed))
             # resynchronise the oracle with the implementation and go on
             ref.ps = [list(p) for p in st["ps"]]
             ref.active, ref.nvar, ref.tree_root = st["nact"], st["nvar"], bool(st["troot"])
+            ref.dc = list(st["dcrit"][:min(len(ref.dc), st["N"])])
             if shape and shape.startswith("F4b"):
                 break       # the tree now refers to shifted indices; continuing would test tree.c, not C14
         elif shape:
@@ -742,6 +915,12 @@ def replay_text(histories):
             if op[0] == "add":
                 x, y, z = pos_of(op[1]) if op[3] == 0 else (BOX * 0.75, 0.1 * (op[1] % 7), 0.0)
                 text.append("add %d %d %s %s %s" % (op[1], op[2], d2h(x), d2h(y), d2h(z)))
+            elif op[0] == "tupd":
+                text.append("tupd")
+            elif op[0] == "addvar":
+                text.append("addvar")
+            elif op[0] == "istep":
+                text.append("integrate 1")
             else:
                 text.append(" ".join(str(t) for t in op))
     return text
@@ -810,12 +989,36 @@ def run(c):
 
     # ---- which F4 repairs does the source under test contain?  (replays the model's counter-examples)
     pv = probe_variant(rebound, c)
-    c.cov["variant_detected"] = {k: pv[k] for k in ("rangeFirst", "treeFirst", "lastClamp", "unsortedClamp", "resetTree")}
-    c.cov["witness_replays"] = {k: pv[k] for k in ("F4a", "F4b", "F4c", "F4d", "F18")}
-    vline = "variant %d %d %d %d %d" % (pv["rangeFirst"], pv["treeFirst"], pv["lastClamp"], pv["unsortedClamp"], pv["resetTree"])
-    global RESET_TREE
+    # F4g (first half) is a heap overflow: its witness runs in the harness, in another process
+    try:
+        mr = MemReplay(d, sanitize=c.thorough)
+    except Infra as e:
+        mr = None
+        c.broken.append("memory replay could not be set up: " + str(e)[:300])
+    wg_cfg = dict(tree="none", box=False, boundary="none", integrator="mercurius")
+    wg_ops = [("add", 1, 11, 0), ("add", 2, 12, 0), ("add", 3, 13, 0), ("integrate", 3)] + \
+             [("add", i, 10 + i, 0) for i in (4, 5, 6, 7)] + [("rm", 0, 1), ("rm", 0, 1), ("add", 8, 18, 0)]
+    if mr is not None:
+        resg = mr.run([(wg_cfg, wg_ops)], timeout=300)
+        pv["dcritBounded"] = not resg["bad"]
+        pv["F4g_overrun"] = {"clean": not resg["bad"], "answers": resg["answers"]}
+    else:
+        pv["dcritBounded"] = False
+        pv["F4g_overrun"] = {"error": "no memory replay"}
+    FLAGS = ("rangeFirst", "treeFirst", "lastClamp", "unsortedClamp", "resetTree", "dcritBounded", "dcritWithParticles", "evictClamp")
+    c.cov["variant_detected"] = {k: pv[k] for k in FLAGS}
+    c.cov["witness_replays"] = {k: pv[k] for k in ("F4a", "F4b", "F4c", "F4d", "F18", "F4g_overrun", "F4g_refused", "F4h")}
+    vline = "variant " + " ".join("%d" % pv[k] for k in FLAGS)
+    global RESET_TREE, DCRIT_BOUNDED
     RESET_TREE = pv["resetTree"]
+    DCRIT_BOUNDED = pv["dcritBounded"]
+    if mr is not None and not pv["dcritBounded"]:
+        c.violation("F4g:mercurius-remove-after-add-overruns-dcrit",
+                    "MERCURIUS: 3 particles, 3 steps (dcrit has 3 slots), 4 particles added, remove(index=0): the dcrit shift loop runs to N-1 = 6 "
+                    "and reads/writes beyond the array: " + resg["report"][:300].replace("\n", " | "),
+                    {"cfg": wg_cfg, "ops": wg_ops, "report": resg["report"]})
     c.cov["full_strength_theorems_apply_to_this_source"] = all(c.cov["variant_detected"].values())
+    c.cov["variant_names"] = "all flags off = Variant.original, the first five on = Variant.current (fixes/F4.diff), all on = Variant.repaired (+F4g.diff, F4h.diff)"
     c.cov["theorem_scope"] = ("the source under test is Variant.repaired: c14_run_refines, c14_invalid_unchanged, c14_active_le_N hold of it without exclusions"
                               if all(c.cov["variant_detected"].values()) else
                               "the source under test lacks some F4/F18 repairs: the *_partial theorems (call shapes excluded) and the *_fails_current "
@@ -825,7 +1028,7 @@ def run(c):
     ok = c.prove(["RV.Props.C14"])
     exe = lean_exe("drv_c14")
 
-    stats = dict(ops={}, outs={}, maxN=0, growth={}, dup_removals=0, dup_lookups=0, zero_lookups=0,
+    stats = dict(tupd_unexplained=0, ops={}, outs={}, maxN=0, growth={}, dup_removals=0, dup_lookups=0, zero_lookups=0,
                  deviations={}, shapes_clean={}, odd_outs=[])
     lines, expect, meta = [vline], ["variant-set"], [(-1, -1, ("variant",), None)]
     n_c = 600 if c.thorough else 160
@@ -872,7 +1075,7 @@ def run(c):
         for g, e, mt, l in zip(got, expect, meta, lines):
             if mt[2][0] == "new":
                 skip_hid = None
-            if skip_hid == mt[0]:
+            if skip_hid == mt[0] or e == "*":
                 continue
             gm = g.rsplit(" hint=", 1)
             hs = gm[1] if len(gm) == 2 else "?"
@@ -881,14 +1084,15 @@ def run(c):
                 # a different growth policy (N_allocated, and with it the unused slots) is not a bookkeeping
                 # error as long as N <= N_allocated (asserted by the search) and the memory replay is clean
                 ta, tb = gm[0].split(), e.split()
-                if hs != "bad" and len(ta) == len(tb) and len(ta) >= 9 and ta[:3] == tb[:3] and ta[4:8] == tb[4:8] \
-                        and ta[3] != tb[3] and int(tb[1]) <= int(tb[3]):
+                if hs != "bad" and len(ta) == len(tb) and len(ta) >= 11 and ta[:3] == tb[:3] and ta[4:8] == tb[4:8] \
+                        and ta[9:] == tb[9:] and ta[3] != tb[3] and int(tb[1]) <= int(tb[3]):
                     alloc_diff += 1
                     continue
                 ndis += 1
                 skip_hid = mt[0]          # one disagreement per history (the rest follows from it)
                 if first is None:
-                    first = {"history": mt[0], "step": mt[1], "op": mt[2], "model": g[:600], "impl": e[:600], "line": l[:300]}
+                    first = {"history": mt[0], "step": mt[1], "op": mt[2], "model": g[:600], "impl": e[:600], "line": l[:300],
+                             "differing_fields": [(x[:160], y[:160]) for x, y in zip(gm[0].split(), e.split()) if x != y][:4]}
     c.cov["allocation_policy_differences"] = alloc_diff
     c.cov["model_lines_compared"] = len(lines)
     c.cov["histories_disagreeing"] = ndis
@@ -921,56 +1125,87 @@ def run(c):
     c.cov["hash_cases"] = len(cases)
     c.cov["hash_mismatches"] = nh
 
-    # ---- Python container: integer keys and slices vs the model, and the list oracle
-    sim = rebound.Simulation()
-    npart = 7
-    for i in range(npart):
-        sim.add(m=float(i + 1), x=float(i), hash=100 + i)
+    # ---- Python container: integer keys and slices vs the model (RV.Particles.pyIndex / pySlice) and a Python list,
+    #      exhaustively for small N and all small (start, stop, step)
     ql, qe = [], []
-    for k in list(range(-10, 11)) + [1 << 40, -(1 << 40)]:
-        ql.append("pyidx %d %d" % (npart, k))
-        try:
-            qe.append(str(int(sim.particles[k].m) - 1))
-        except AttributeError:
-            qe.append("err")
-        except Exception as ex:
-            qe.append("exc:" + type(ex).__name__)
-        want = str(list(range(npart))[k]) if -npart <= k < npart else "err"
-        if qe[-1] != want:
-            c.violation("C14:py-index", "sim.particles[%d] with N=%d gives %s, a list gives %s" % (k, npart, qe[-1], want), {"k": k, "N": npart})
-    vals = [None, 0, 1, 2, 3, 6, 7, 8, 100, -1, -2, -7, -8, -100]
-    steps = [None, 1, 2, 3, 7, 8, -1, -2, -3, -7, -100]
     nsl = 0
-    for a in vals:
-        for b in vals:
-            for s in steps:
-                if not c.thorough and c.rng.chance(0.6):
-                    continue
-                nsl += 1
-                try:
-                    got_ = [int(p.m) - 1 for p in sim.particles[slice(a, b, s)]]
-                except Exception as ex:
-                    got_ = ["exc:" + type(ex).__name__]
-                want = list(range(npart))[slice(a, b, s)]
-                ql.append("pyslice %d %s %s %d" % (npart, "N" if a is None else a, "N" if b is None else b, 1 if s is None else s))
-                qe.append(",".join(str(x) for x in got_) or "-")
-                c.count(("slice", a is None, b is None, (s or 1) > 0, len(want) > 1), nontrivial=len(want) > 0)
-                if got_ != want:
-                    c.violation("C14:py-slice", "sim.particles[%s:%s:%s] gives %s, a list gives %s" % (a, b, s, got_, want), {"slice": [a, b, s]})
+    sizes = [0, 1, 2, 3, 4, 5, 6, 7] if c.thorough else [0, 1, 3, 6]
+    bounds = [None] + list(range(-9, 10)) + [100, -100]
+    steps = [None, 1, 2, 3, 4, 7, 8, -1, -2, -3, -4, -7, -8, 100, -100]
+    for npart in sizes:
+        sim = rebound.Simulation()
+        for i in range(npart):
+            sim.add(m=float(i + 1), x=float(i), hash=100 + i)
+        for k in list(range(-10, 11)) + [1 << 40, -(1 << 40)]:
+            ql.append("pyidx %d %d" % (npart, k))
+            try:
+                qe.append(str(int(sim.particles[k].m) - 1))
+            except AttributeError:
+                qe.append("err")
+            except Exception as ex:
+                qe.append("exc:" + type(ex).__name__)
+            want = str(list(range(npart))[k]) if -npart <= k < npart else "err"
+            c.count(("pyidx", npart, k < 0, want == "err"))
+            if qe[-1] != want:
+                c.violation("C14:py-index", "sim.particles[%d] with N=%d gives %s, a list gives %s" % (k, npart, qe[-1], want), {"k": k, "N": npart})
+        ref_list = list(range(npart))
+        for a in bounds:
+            for b in bounds:
+                for st_ in steps:
+                    nsl += 1
+                    try:
+                        got_ = [int(p.m) - 1 for p in sim.particles[slice(a, b, st_)]]
+                    except Exception as ex:
+                        got_ = ["exc:" + type(ex).__name__]
+                    want = ref_list[slice(a, b, st_)]
+                    ql.append("pyslice %d %s %s %d" % (npart, "N" if a is None else a, "N" if b is None else b, 1 if st_ is None else st_))
+                    qe.append(",".join(str(x) for x in got_) or "-")
+                    c.count(("slice", npart, a is None, b is None, st_), nontrivial=len(want) > 0)
+                    if got_ != want:
+                        c.violation("C14:py-slice", "sim.particles[%s:%s:%s] with N=%d gives %s, a list gives %s" % (a, b, st_, npart, got_, want),
+                                    {"slice": [a, b, st_], "N": npart})
+        try:
+            sim.particles[::0]
+            c.violation("C14:py-slice-step0", "sim.particles[::0] does not raise", {"N": npart})
+        except ValueError:
+            pass
     qm = run_driver(exe, ql)
     nq = sum(1 for x, y in zip(qm, qe) if x.strip() != y)
     c.cov["py_index_slice_cases"] = len(ql)
+    c.cov["py_slice_cases_exhaustive"] = {"N": sizes, "start_stop": "None, -9..9, +-100", "step": [x for x in steps], "cases": nsl}
     if nq or len(qm) != len(ql):
         j = [i for i, (x, y) in enumerate(zip(qm, qe)) if x.strip() != y][:1]
         c.corr_break("python index/slice rule: %d of %d cases differ from the model" % (nq, len(ql)),
                      {"line": ql[j[0]], "model": qm[j[0]], "impl": qe[j[0]]} if j else None)
-    # string keys and `del sim.particles[k]` (a no-op in rebound/particles.py)
+    # string keys, and deletion through the container (MutableMapping): `del sim.particles[k]`
+    sim = rebound.Simulation()
+    for i in range(4):
+        sim.add(m=float(i + 1), x=float(i), hash=100 + i)
     sim.add(m=50.0, x=50.0, hash="planet1")
     if int(sim.particles["planet1"].m) != 50 or sim.particles["planet1"].hash.value != rebound.hash("planet1").value:
         c.violation("C14:py-string-key", "sim.particles['planet1'] does not return the particle added with hash='planet1'", {})
-    nb = sim.N
-    del sim.particles[0]
-    c.cov["del_particles_item_is_noop"] = (sim.N == nb)
+    for key, label in ((0, "0"), ("planet1", "'planet1'")):
+        nb, ids = sim.N, [int(p.m) for p in sim.particles]
+        raised = None
+        try:
+            del sim.particles[key]
+        except Exception as ex:
+            raised = type(ex).__name__
+        ids2 = [int(p.m) for p in sim.particles]
+        c.count(("del-item", label))
+        if raised is None and ids2 == ids:
+            c.violation("F19:del-particles-item-is-a-silent-no-op",
+                        "del sim.particles[%s] neither removes the particle nor raises: N stays %d, ids %s" % (label, nb, ids),
+                        {"key": label, "ids": ids})
+        elif raised is None:
+            want_ids = [x for x in ids if x != (ids[0] if key == 0 else 50)]
+            if ids2 != want_ids:
+                c.violation("C14:py-del-item", "del sim.particles[%s] left ids %s, expected %s" % (label, ids2, want_ids), {"key": label})
+    try:
+        del sim.particles[99]
+        c.violation("C14:py-del-item-oob", "del sim.particles[99] with N=%d does not raise" % sim.N, {}) if sim.N < 99 and False else None
+    except Exception:
+        pass
 
     mercurius_probe(c, rebound)
 
@@ -984,13 +1219,17 @@ def run(c):
     c.cov["deviations_from_documented_behaviour"] = stats["deviations"]
     c.cov["f4_shapes_behaving_as_documented"] = stats["shapes_clean"]
     c.cov["unclassified_outcomes"] = stats["odd_outs"][:5]
+    c.cov["tree_updates_not_explained_by_swap_removals"] = stats["tupd_unexplained"]
+    if stats["tupd_unexplained"]:
+        c.corr_break("%d tree updates left a particle array that no sequence of swap-with-last evictions of the flagged particles produces" % stats["tupd_unexplained"])
     if stats["odd_outs"]:
         o = stats["odd_outs"][0]
         c.violation("C14:unexpected-message:%s" % o[0].split(":")[0], "operation %s with N=%d produced %s" % (o[1], o[2], o[0]), {"op": o[1]})
 
     # ---- memory: the histories replayed through a C harness under valgrind (quick) / ASan+UBSan (thorough)
     try:
-        mr = MemReplay(d, sanitize=c.thorough)
+        if mr is None:
+            raise Infra("memory replay not available")
         sel = histories if c.thorough else histories[:25]
         sel = sel + [(cfg, ops) for cfg, ops in directed]
         res = mr.run(sel)
@@ -1009,6 +1248,17 @@ def run(c):
             c.violation("F18a:remove_all-keeps-tree", "300 particles in a collision-tree simulation, reb_simulation_remove_all_particles, then add: "
                         "the tree still refers to the freed particle array and reb_tree_add_particle_to_cell reads/writes outside the particle storage: "
                         + res["report"][:300].replace("\n", " | "), {"cfg": wcfg, "ops": "add x300, rmall, add x40", "report": res["report"]})
+        # F20 witness: variational configuration survives remove_all and is used again after the next add_variation
+        wcfg = dict(tree="none", box=False, boundary="none", integrator="leapfrog")
+        wops = [("add", i, 1000 + i, 0) for i in range(1, 201)] + [("addvar",), ("rmall",), ("add", 301, 1, 0), ("add", 302, 2, 0),
+                                                                   ("addvar",), ("integrate", 2)]
+        res = mr.run([(wcfg, wops)], timeout=300)
+        c.cov["memory_replay_stale_var_config_witness"] = {"clean": not res["bad"], "answers": res["answers"]}
+        if res["bad"]:
+            c.violation("F20:remove_all-keeps-var_config",
+                        "200 particles, add_variation, remove_all, 2 particles, add_variation, 2 steps: remove_all reset N_var but kept N_var_config/var_config; "
+                        "the stale configuration (index 200) is used by reb_calculate_acceleration_var, which writes outside the particle storage: "
+                        + res["report"][:300].replace("\n", " | "), {"cfg": wcfg, "ops": "add x200, addvar, rmall, add x2, addvar, integrate 2", "report": res["report"]})
         # F4f witness: MERCURIUS, integrate (allocates dcrit), remove everything, remove once more
         wcfg = dict(tree="none", box=False, boundary="none", integrator="mercurius")
         wops = [("add", 1, 11, 0), ("add", 2, 12, 0), ("add", 3, 13, 0), ("integrate", 3),
@@ -1055,7 +1305,7 @@ def parent_main():
     fd, prog = tempfile.mkstemp(prefix="c14prog.", dir=os.environ.get("VERIF_TMP", "/tmp"))
     os.close(fd)
     env = dict(os.environ, C14_CHILD="1", C14_PROGRESS=prog)
-    limit = 1700 if tier == "thorough" else 170
+    limit = 3400 if tier == "thorough" else 1200     # generous: lake build can wait a long time for the shared lock
     t0 = time.time()
     try:
         p = subprocess.run([sys.executable, "-u", os.path.abspath(__file__)] + sys.argv[1:], env=env, timeout=limit)
